@@ -11,7 +11,9 @@ Three differential legs against the hooked `sccache-dist __verif_paths` (src/bin
            private mount namespace with an overlay over `/` and a fresh tmpfs on /dev/shm, so that (a) nothing a
            defect writes can reach the machine and (b) any write anywhere below `/` is seen.
   fs_sym   like fs, every case with a symlink inside the job root (unpacked from the inputs archive or created by the
-           job) that the cwd / output paths go through.
+           job, also in place of its own cwd or an ancestor) that the cwd / output paths go through.
+  fs2      scripts with jobs that are still running while other requests are handled, two toolchains and a small
+           toolchain cache (eviction, the builder forgetting / re-unpacking toolchains, build counters restarting).
 """
 import os
 import subprocess
@@ -25,8 +27,8 @@ RUN_MODULE = 'Run.C19'
 REPO_BINS = ['sccache-dist']
 THEOREMS = ['C19_join_suffix_confined', 'C19_no_symlink_followed', 'C19_join_suffix_total_without_links', 'C19_job_confined',
             'C19_cache_file_confined', 'C19_rejects_escapes', 'C19_valid_ids_are_plain_names', 'C19_server_ids_valid',
-            'C19_jobs_disjoint', 'C19_prepare_fresh', 'C19_build_names_injective', 'C19_build_roots_not_nested',
-            'C19_toolchain_readonly_by_construction', 'C19_job_view_independent_of_history', 'C19_job_root_shape',
+            'C19_jobs_disjoint', 'C19_prepare_fresh', 'C19_prepare_guard', 'C19_started_job_root_fresh', 'C19_build_names_injective', 'C19_build_roots_not_nested',
+            'C19_toolchain_readonly_by_construction', 'C19_job_view_independent_of_history',
             'C19_components_join']
 ASSUMPTIONS = [
     'PARTIAL: bubblewrap is not available in the sandbox; the job itself is replaced by a stand-in that is confined to '
@@ -38,6 +40,10 @@ ASSUMPTIONS = [
     'server\'s own base directories (and the path leading to them) are assumed to be symlink-free, and nothing changes '
     'the job root between join_suffix and the create_dir_all / open that uses its result (true in perform_build: the '
     'job is not running at either point)',
+    'leg fs2 / Part 5 of the model: the toolchain cache is modelled by the number of archives it has room for (only 0 = no '
+    'limit, 1 and 2 are generated, with two archives, so LRU order beyond "the other one is evicted" is not exercised); that the '
+    'builder removes the unpacked toolchain (overlay lower layer) of a job that is still running is outside the property and '
+    'not modelled (running jobs in the generated scripts do not read toolchain files back)',
     'the tar crate\'s own member-name checks are exercised (members named ../x, /abs) but not modelled beyond '
     '"a member with a .. component is skipped, leading / and . are dropped"',
     'the server base directories are given as absolute paths without symlinks (as in the documented configuration)',
@@ -75,6 +81,14 @@ def real_digest():
         _real['id'] = p.stdout.decode().strip().encode()
         assert valid_id(_real['id']), _real['id']
     return _real['id']
+
+
+def real_digest2():
+    if 'id2' not in _real:
+        p = subprocess.run([pipeline.repo_bin('sccache-dist'), '__verif_paths', 'digest2'], stdout=subprocess.PIPE, timeout=60)
+        _real['id2'] = p.stdout.decode().strip().encode()
+        assert valid_id(_real['id2']) and _real['id2'] != real_digest(), _real['id2']
+    return _real['id2']
 
 
 def fs_supported():
@@ -320,6 +334,83 @@ def gen_fs_job(rng, real, pool, symlinks=False):
     return [b'job', bad, 0, 1, cwd, outs, inputs, writes]
 
 
+SENTINELS = [b'secret', b'passwd', b'etc/passwd', b'srv/secret']
+
+
+def gen_replace_job(rng, real):
+    """the compile itself replaces its working directory, or an ancestor of it, by a symlink and the (mostly
+    relative) outputs are named below it"""
+    depth = rng.range(1, 3)
+    names = [rng.choice([b'work', b'w', b'a', b'proj', b'etc', b'srv', b'home']) for _ in range(depth)]
+    cwd = b'/' + b'/'.join(names)
+    at = rng.range(1, depth)                      # which component is replaced
+    victim = b'/' + b'/'.join(names[:at])
+    ups = b'../' * (5 + at - 1)                   # from the directory of the link up to the server's scratch root
+    tgt = rng.choice([ups, ups + b'etc', ups + b'srv', ups[:-1], ups + b'etc/', b'/etc', b'/', ups + b'../' * rng.range(1, 6),
+                      b'/tc_bin', b'tc_lib', b'../' * at, b'.', victim[1:].split(b'/')[-1]])
+    outs = []
+    for _ in range(rng.range(1, 3)):
+        o = rng.choice(SENTINELS + [b'out.o', b'tool', b'../secret', b'../etc/passwd'])
+        if rng.chance(1, 8):
+            o = cwd + b'/' + o
+        outs.append(o)
+    writes = []
+    own = rng.choice([b'out.o', b'secret', b'passwd'])
+    if rng.chance(1, 2):
+        writes.append([b'file', own, b'OWN:' + own])
+    writes.append([b'replace', victim, tgt])
+    if rng.chance(1, 3):
+        writes.append([b'file', own, b'LATE:' + own])
+    if rng.chance(1, 4):
+        writes.append([b'replace', cwd, rng.choice([ups, b'/etc', ups + b'etc'])])
+    return [b'job', real, 1, 1, cwd, outs, [], writes]
+
+
+def gen_fs2(rng, tier):
+    """scripts on one server whose toolchain cache has room for one archive (mostly): jobs that are still running
+    while other toolchains are uploaded (evicting theirs), other jobs run (the builder forgets unpacked
+    toolchains) and their toolchain comes back"""
+    if not fs_supported():
+        return []
+    t = [None, real_digest(), real_digest2()]
+    n = 6000 if tier == 'thorough' else 260
+    out = []
+    for _ in range(n):
+        cap = rng.weighted([(1, 5), (0, 1), (2, 1)])
+        ops = []
+        live = []
+        key = 0
+        nj = 0
+        for _ in range(rng.range(3, 9)):
+            k = rng.weighted([('start', 3 if len(live) < 3 else 0), ('job', 4), ('release', 3 if live else 0)])
+            if k == 'release':
+                x = rng.choice(live)
+                live.remove(x)
+                ops.append([b'release', x])
+                continue
+            nj += 1
+            which = rng.weighted([(1, 3), (2, 2)])
+            name = rng.choice([b'out.o', b'a.o', b'x'])
+            cwd = rng.choice([b'/w', b'/proj/a', b'/w'])
+            if rng.chance(1, 6):
+                job = gen_replace_job(rng, t[which])
+                job[2] = which
+            else:
+                outs = [name] + ([b'b.o'] if rng.chance(1, 3) else [])
+                writes = [[b'file', o, b'J%d:' % nj + o] for o in outs if rng.chance(5, 6)]
+                job = [b'job', t[which], which, 1, cwd, outs, [], writes]
+            if k == 'start':
+                key += 1
+                live.append(key)
+                ops.append([b'start', key, job])
+            else:
+                ops.append(job)
+        for x in live:
+            ops.append([b'release', x])
+        out.append([cap, ops])
+    return out
+
+
 def gen_fs(rng, tier, symlinks=False):
     if not fs_supported():
         return []
@@ -330,7 +421,10 @@ def gen_fs(rng, tier, symlinks=False):
     out = []
     for _ in range(n):
         pool = [b'/shared/leak', b'o.o', b'/tc_bin/tool']
-        out.append([gen_fs_job(rng, real, pool, symlinks) for _ in range(rng.weighted([(1, 3), (2, 3), (3, 2)]))])
+        jobs = [gen_fs_job(rng, real, pool, symlinks) for _ in range(rng.weighted([(1, 3), (2, 3), (3, 2)]))]
+        if symlinks and rng.chance(1, 3):
+            jobs.insert(rng.below(len(jobs) + 1), gen_replace_job(rng, real))
+        out.append(jobs)
     return out
 
 
@@ -399,81 +493,151 @@ def norm_inside(cwd, p):
     return resolve(comps(pjoin(cwd, p)))
 
 
-def mon_fs(case, out):
+TOOLS = (TOOL, b'TOOL2')
+
+
+def simple_job(job):
+    """a job whose outputs python can predict without a model: absolute cwd of plain names, outputs and written files
+    plain names in cwd, no inputs, nothing but file writes"""
+    _, jid, genuine, do_run, cwd, outs, inputs, writes = job
+    plain = lambda n: n and b'/' not in n and n not in (b'.', b'..') and b'\x00' not in n
+    return (cwd.startswith(b'/') and all(plain(x) for x in cwd[1:].split(b'/')) and not cwd.startswith(b'/tc_') and not inputs
+            and all(plain(o) for o in outs) and all(w[0] == b'file' and plain(w[1]) for w in writes))
+
+
+def own_outputs(job):
+    _, jid, genuine, do_run, cwd, outs, inputs, writes = job
+    last = {}
+    for w in writes:
+        last[w[1]] = w[2]
+    return [[o, last[o]] for o in outs if o in last]
+
+
+def check_obs(k, job, f, vs, symlinks, live):
+    """the property on one observation.  job = the request this observation belongs to (for a release: the request
+    that was started); live = {key: target} of the jobs whose compile is still running AFTER this step"""
+    _, jid, genuine, do_run, cwd, outs, inputs, writes = job
+    for step in (b'assign', b'submit', b'run'):
+        if f[step] == b'panic':
+            vs.append('job %d: handle_%s panicked (id %r)' % (k, step.decode(), jid))
+    for e in f[b'escaped']:
+        vs.append('job %d: %s outside the server\'s own directories: %r (id %r cwd %r outputs %r)' % (k, e[0].decode(), e[1], jid, cwd, outs))
+    # below builds/ there is exactly one intact directory per job that is still running
+    top = {}
+    for e in f[b'left']:
+        parts = e.split(b'/')
+        top.setdefault(parts[0], set()).add(b'/'.join(parts[1:2]))
+    want = {t.split(b'/')[3]: key for key, t in live.items()}
+    for nm in top:
+        if nm not in want:
+            vs.append('job %d: build directory %r left behind / not owned by a running job' % (k, nm))
+    for nm, key in want.items():
+        if not {b'upper', b'work', b'target'} <= top.get(nm, set()):
+            vs.append('job %d: the root builds/%s of job %r, which is still running, was removed or damaged by another job (left: %r)'
+                      % (k, nm.decode(), key, sorted(top.get(nm, set()))))
+    allowed = set(TOOLS) | {m[2] for m in inputs if m[0] == b'file'} | {w[2] for w in writes if w[0] == b'file'}
+    for o in f[b'outputs']:
+        if o[1] == SECRET:
+            vs.append('job %d: output %r returned the content of a file OUTSIDE the job root' % (k, o[0]))
+        elif o[1] not in allowed:
+            vs.append('job %d: output %r has content %r that is neither from the toolchain, its inputs nor its own writes' % (k, o[0], o[1]))
+    if f[b'run'] in (b'complete', b'err') and simple_job(job) and (f[b'run'] == b'complete' or f[b'head'] == b'release'):
+        if f[b'outputs'] != own_outputs(job):
+            vs.append('job %d: returned outputs %r, but it wrote %r: another job interfered with its root' % (k, f[b'outputs'], own_outputs(job)))
+    for e in f[b'toolchains']:
+        parts = e[1].split(b'/')
+        if not valid_id(parts[0]):
+            vs.append('job %d: entry %r in toolchains/ is not under a well-formed id' % (k, e[1]))
+        if e[0] == b'f' and (parts[1:] != [b'tc_bin', b'tool'] or e[2] not in TOOLS):
+            vs.append('job %d: unpacked toolchain altered: %r = %r' % (k, e[1], e[2]))
+        if len(parts) > 1 and parts[1] not in (b'tc_bin', b'tc_lib'):
+            vs.append('job %d: foreign entry %r in the unpacked toolchain' % (k, e[1]))
+    for e in f[b'cache']:
+        parts = e[1].split(b'/')
+        good = (len(parts) <= 3 and all(len(x) == 1 and x in HEX for x in parts[:2])
+                and (len(parts) < 3 or (valid_id(parts[2]) and parts[2][0:1] == parts[0] and parts[2][1:2] == parts[1])))
+        if not good:
+            vs.append('job %d: entry %r in the toolchain cache is not <a>/<b>/<hex id>' % (k, e[1]))
+    t = f[b'target']
+    if isinstance(t, bytes):
+        parts = t.split(b'/')
+        nm = parts[3] if len(parts) == 5 else b''
+        if parts[:3] != [b'srv', b'build', b'builds'] or parts[4:] != [b'target'] or not valid_id(nm.split(b'-')[0]) or not nm.split(b'-')[-1].isdigit():
+            vs.append('job %d: job root %r is not builds/<id>-<n>/target' % (k, t))
+        # everything the job finds in its root is explained by the toolchain, its own inputs and the
+        # directories the server created for its own cwd / outputs (symlink-free cases only: with links
+        # the server legitimately resolves them inside the root)
+        if symlinks:
+            return
+        expl = set()
+
+        def add(p):
+            for i in range(1, len(p) + 1):
+                expl.add(b'/'.join(p[:i]))
+        add([b'tc_bin', b'tool'])
+        add([b'tc_lib'])
+        for m in inputs:
+            cs = comps(m[1])
+            if 'up' not in cs:
+                add([c for c in cs if not isinstance(c, str)])
+        add(norm_inside(cwd, b''))
+        for o in outs:
+            par = parent_bytes(o)
+            if par is not None:
+                add(norm_inside(cwd, par))
+        for e in f[b'snap']:
+            if e[1] not in expl:
+                vs.append('job %d: found %r in its root, which comes neither from the toolchain, its inputs nor its own cwd/outputs' % (k, e[1]))
+
+
+def mon_ops(ops, out, symlinks):
     vs = []
     if out and out[0] == b'env_unsupported':
         return []
-    if not isinstance(out, list) or len(out) != len(case):
+    if not isinstance(out, list) or len(out) != len(ops):
         return ['malformed implementation output']
-    targets = []
-    for k, (job, obs) in enumerate(zip(case, out)):
-        _, jid, genuine, do_run, cwd, outs, inputs, writes = job
+    live = {}      # key -> target of the jobs whose compile is running
+    started = {}   # key -> request
+    for k, (op, obs) in enumerate(zip(ops, out)):
+        if not isinstance(obs, list) or not obs or obs[0] not in (b'job', b'start', b'release'):
+            vs.append('step %d: unexpected observation %r' % (k, obs))
+            continue
         f = {x[0]: x[1] for x in obs[1:]}
-        for step in (b'assign', b'submit', b'run'):
-            if f[step] == b'panic':
-                vs.append('job %d: handle_%s panicked (id %r)' % (k, step.decode(), jid))
-        for e in f[b'escaped']:
-            vs.append('job %d: %s outside the server\'s own directories: %r (id %r cwd %r outputs %r)' % (k, e[0].decode(), e[1], jid, cwd, outs))
-        if f[b'left']:
-            vs.append('job %d: build directory not removed: %r' % (k, f[b'left'][:3]))
-        allowed = {TOOL} | {m[2] for m in inputs if m[0] == b'file'} | {w[2] for w in writes if w[0] == b'file'}
-        for o in f[b'outputs']:
-            if o[1] == SECRET:
-                vs.append('job %d: output %r returned the content of a file OUTSIDE the job root' % (k, o[0]))
-            elif o[1] not in allowed:
-                vs.append('job %d: output %r has content %r that is neither from the toolchain, its inputs nor its own writes' % (k, o[0], o[1]))
-        for e in f[b'toolchains']:
-            parts = e[1].split(b'/')
-            if not valid_id(parts[0]):
-                vs.append('job %d: entry %r in toolchains/ is not under a well-formed id' % (k, e[1]))
-            if e[0] == b'f' and (parts[1:] != [b'tc_bin', b'tool'] or e[2] != TOOL):
-                vs.append('job %d: unpacked toolchain altered: %r = %r' % (k, e[1], e[2]))
-            if len(parts) > 1 and parts[1] not in (b'tc_bin', b'tc_lib'):
-                vs.append('job %d: foreign entry %r in the unpacked toolchain' % (k, e[1]))
-        for e in f[b'cache']:
-            parts = e[1].split(b'/')
-            good = (len(parts) <= 3 and all(len(x) == 1 and x in HEX for x in parts[:2])
-                    and (len(parts) < 3 or (valid_id(parts[2]) and parts[2][0:1] == parts[0] and parts[2][1:2] == parts[1])))
-            if not good:
-                vs.append('job %d: entry %r in the toolchain cache is not <a>/<b>/<hex id>' % (k, e[1]))
-        t = f[b'target']
-        if isinstance(t, bytes):
-            parts = t.split(b'/')
-            nm = parts[3] if len(parts) == 5 else b''
-            if parts[:3] != [b'srv', b'build', b'builds'] or parts[4:] != [b'target'] or not valid_id(nm.split(b'-')[0]) or not nm.split(b'-')[-1].isdigit():
-                vs.append('job %d: job root %r is not builds/<id>-<n>/target' % (k, t))
-            # everything the job finds in its root is explained by the toolchain, its own inputs and the
-            # directories the server created for its own cwd / outputs (symlink-free cases only: with links
-            # the server legitimately resolves them inside the root)
-            if has_symlink(case):
+        f[b'head'] = obs[0]
+        if op[0] == b'start':
+            job = op[2]
+            t = f[b'target']
+            if f[b'run'] == b'running' and isinstance(t, bytes):
+                if t in live.values():
+                    vs.append('step %d: job %r was given the root %r of a job that is still running' % (k, op[1], t))
+                live[op[1]] = t
+                started[op[1]] = job
+        elif op[0] == b'release':
+            job = started.get(op[1])
+            live.pop(op[1], None)
+            if job is None:
                 continue
-            expl = set()
-
-            def add(p):
-                for i in range(1, len(p) + 1):
-                    expl.add(b'/'.join(p[:i]))
-            add([b'tc_bin', b'tool'])
-            add([b'tc_lib'])
-            for m in inputs:
-                cs = comps(m[1])
-                if 'up' not in cs:
-                    add([c for c in cs if not isinstance(c, str)])
-            add(norm_inside(cwd, b''))
-            for o in outs:
-                par = parent_bytes(o)
-                if par is not None:
-                    add(norm_inside(cwd, par))
-            for e in f[b'snap']:
-                if e[1] not in expl:
-                    vs.append('job %d: found %r in its root, which comes neither from the toolchain, its inputs nor its own cwd/outputs' % (k, e[1]))
+        else:
+            job = op
+            t = f[b'target']
+            if isinstance(t, bytes) and t in live.values():
+                vs.append('step %d: a job was given the root %r of a job that is still running' % (k, t))
+        check_obs(k, job, f, vs, symlinks, live)
     return vs
 
 
+def mon_fs(case, out):
+    return mon_ops(case, out, has_symlink(case))
+
+
+def mon_fs2(case, out):
+    ops = case[1]
+    return mon_ops(ops, out, has_symlink([o[2] if o[0] == b'start' else o for o in ops if o[0] != b'release']))
+
+
 def has_symlink(case):
-    return any(m[0] == b'symlink' for job in case for m in job[6] + job[7])
+    return any(m[0] in (b'symlink', b'replace') for job in case for m in job[6] + job[7])
 
-
-# ---------------------------------------------------------------- comparison, statistics, shrinking
 
 def canon_fs(line):
     x = pipeline.parse_out(line)
@@ -481,17 +645,20 @@ def canon_fs(line):
         return x
     res = []
     for obs in x:
-        if not isinstance(obs, list) or not obs or obs[0] != b'job':
+        if not isinstance(obs, list) or not obs or obs[0] not in (b'job', b'start', b'release'):
             res.append(obs)
             continue
-        f = []
+        f = [obs[0]]
         for fld in obs[1:]:
-            if fld[0] == b'cache':
+            if fld[0] == b'left':
+                # the model knows which build directories exist, not what overlayfs keeps inside them
+                f.append([fld[0], sorted(set(e.split(b'/')[0] for e in fld[1]))])
+            elif fld[0] == b'cache':
                 # entries of ids other than the genuine toolchain depend on the C17 fix (a refused upload used
                 # to stay in the cache): compared for the genuine id only; the monitor checks the shape of all
-                real = _real.get('id', b'?')
-                f.append([fld[0], sorted(set(sx.dumps(e) for e in fld[1] if e[0] == b'f' and e[1].split(b'/')[-1] == real))])
-            elif fld[0] in (b'snap', b'toolchains', b'left'):
+                real = (_real.get('id', b'?'), _real.get('id2', b'?'))
+                f.append([fld[0], sorted(set(sx.dumps(e) for e in fld[1] if e[0] == b'f' and e[1].split(b'/')[-1] in real))])
+            elif fld[0] in (b'snap', b'toolchains'):
                 f.append([fld[0], sorted(set(sx.dumps(e) for e in fld[1]))])
             else:
                 f.append(fld)
@@ -527,6 +694,39 @@ def stats_fs(case, out):
     except Exception:
         pass
     return ks
+
+
+def stats_fs2(case, out):
+    ks = ['cache_room=%d' % case[0], 'steps=%d' % len(case[1])]
+    running = 0
+    try:
+        for op, obs in zip(case[1], out):
+            f = {x[0]: x[1] for x in obs[1:]}
+            ks.append('%s.run=%s' % (obs[0].decode(), f[b'run'].decode()))
+            if obs[0] == b'start' and f[b'run'] == b'running':
+                running += 1
+            if obs[0] == b'release':
+                running -= 1
+            if obs[0] != b'release' and running > (1 if obs[0] == b'start' else 0):
+                ks.append('step_while_other_job_running')
+                if f[b'run'] == b'err':
+                    ks.append('refused_while_other_job_running')
+    except Exception:
+        pass
+    return ks
+
+
+def nontrivial_fs2(case, out):
+    return 'step_while_other_job_running' in stats_fs2(case, out)
+
+
+def shrink_fs2(case):
+    cap, ops = case
+    for i in range(len(ops)):
+        yield [cap, ops[:i] + ops[i + 1:]]
+    for i, op in enumerate(ops):
+        if op[0] == b'start':
+            yield [cap, ops[:i] + [op[2]] + [o for o in ops[i + 1:] if o != [b'release', op[1]]]]
 
 
 def nontrivial_calc(case, out):
@@ -627,6 +827,13 @@ def legs(tier):
                  'non-trivial = at least one job reached handle_run_job'),
         Leg('fs_sym', lambda rng, tier: gen_fs(rng, tier, True), monitor=mon_fs, nontrivial=nontrivial_fs, shrink=shrink_fs,
             stats=stats_fs, compare=compare_fs, impl_env=env, model_leg='fs', impl_args=['fs'],
-            rule='as fs, every case with a symlink unpacked from the inputs archive or created by the job (targets inside the '
-                 'scratch root only: the hook refuses others), requested as / below cwd and outputs'),
+            rule='as fs, every case with a symlink unpacked from the inputs archive or created by the job, requested as / below '
+                 'cwd and outputs; 1/3 of the cases with a job whose compile replaces its cwd or an ancestor by a symlink '
+                 '(targets: the server\'s scratch root, its etc/ and srv/, /etc, /, inside the root) and names relative outputs below it'),
+        Leg('fs2', gen_fs2, monitor=mon_fs2, nontrivial=nontrivial_fs2, shrink=shrink_fs2, stats=stats_fs2, compare=compare_fs,
+            impl_env=env,
+            rule='scripts of 3-9 steps on one server with two toolchains and a toolchain cache with room for 1 (5/7), 2 or any '
+                 'number of archives: start (the compile stays running), job, release; uploads evict the other toolchain, the '
+                 'builder forgets and re-unpacks toolchains, counters restart; non-trivial = some step ran while another job\'s '
+                 'compile was running'),
     ]
